@@ -133,7 +133,9 @@ func (g *gen) join() string {
 var plainNames = []string{"cpu", "mem", "value", "host", "region", "usage_idle", "x", "y1", "_t", "db0", "rp0", "m", "Load", "aB"}
 var oddNames = []string{"select", "FROM", "time", "my db", "a.b", "q\"uote", "back\\slash", "1abc", "héllo", "日本", "tab\there", "new\nline", "with'single", "a-b", "", "ALL", "key", "😀", "x;y", "/re/", "$p", "--c", "duration", "inf",
 	// format directives, invisible and unusual code points, reserved system names
-	"usage%", "a%%", "%d", "%s%v", "\uFEFFbom", "a\uFEFFb", "nb\u00a0sp", "ls\u2028x", "zw\u200bx", "\uFFFD", "_series", "_fieldKeys", "_measurements", "_tagKeys", "_name"}
+	"usage%", "a%%", "%d", "%s%v", "\uFEFFbom", "a\uFEFFb", "nb\u00a0sp", "ls\u2028x", "zw\u200bx", "\uFFFD", "_series", "_fieldKeys", "_measurements", "_tagKeys", "_name",
+	// words the scanner reads as tokens that are not in the keyword block: literals and operators
+	"true", "False", "and", "OR", "Time", "TIME", "now", "now()"}
 
 func (g *gen) name() string {
 	if g.r.chance(3, 4) {
